@@ -948,6 +948,21 @@ func translateExt(fset *token.FileSet, load fileLoader, sp spec, known map[strin
 		}
 		known[sp.Func] = ft
 	}
+	// a method of a struct value that neither loops, nor changes its receiver, nor fails: callable as `v.M(..)` from
+	// functions translated later into the same module (named results without an error are a plain tuple too)
+	hasErr := false
+	for _, r := range x.results {
+		hasErr = hasErr || r.k == kErr || r.k == kErrOpt
+	}
+	if !x.hasExit && len(x.extras) == 0 && len(pre) == 0 && fd.Recv != nil && sp.Frag == nil && !hasErr && len(x.tparams) == 0 && sp.Name == "" {
+		ft := &xty{k: kFunc, results: x.results}
+		for _, p := range fd.Type.Params.List {
+			for range p.Names {
+				ft.params = append(ft.params, x.goTy(p.Type))
+			}
+		}
+		known[sp.Recv+"."+sp.Func] = ft
+	}
 	return out
 }
 
